@@ -137,6 +137,56 @@ fn one_config(st: &mut Stats, rng: &mut Rng, k: usize, len: usize, delays: bool,
     }
 }
 
+/// Concurrent callers: several user threads, each pinned to its own pair of CPUs (2 workers per call), call dot_f64
+/// on their own exact-integer data at the same time. Covers state shared between calls (static scratch areas, caches)
+/// and narrow publication windows inside one call; bounded by a call count, not by time.
+fn concurrent_callers(ctx: &Ctx, cpus: &[usize]) -> Stats {
+    let pairs: Vec<Vec<usize>> = cpus.chunks(2).filter(|c| c.len() == 2).take(8).map(|c| c.to_vec()).collect();
+    let calls = ctx.vol(30_000, 400_000);
+    let total = std::sync::Mutex::new(Stats::default());
+    if pairs.len() < 2 { let mut st = Stats::default(); st.count("skipped:concurrent-callers-need-4-cpus"); return st; }
+    let nthreads = pairs.len();
+    let pairs_ref = &pairs;
+    std::thread::scope(|s| {
+        for t in 0..nthreads {
+            let total = &total;
+            let pair: &Vec<usize> = &pairs_ref[t];
+            s.spawn(move || {
+                let mut st = Stats::default();
+                st.unit = 1_000_000 + t as u64;
+                if !pin_to(pair) { st.count("skipped:affinity-not-effective"); total.lock().unwrap().merge(st); return; }
+                let mut rng = Rng::new(crate::rng::mix(ctx.seed, 0xC16_57 + t as u64));
+                // a few data sets per thread, all different between threads
+                let lens: Vec<usize> = (0..6).map(|i| if i < 4 { rng.usize(150, 199) } else { rng.usize(2000, 40_000) }).collect();
+                let sets: Vec<(Vector<f64>, Vector<f64>, f64)> = lens.iter().map(|&len| {
+                    let a: Vec<f64> = (0..len).map(|i| ((i % 1000) + 1 + t) as f64).collect();
+                    let b: Vec<f64> = (0..len).map(|i| (((i * 7 + t) % 13) as f64 + 1.0) * if (i + t) % 3 == 0 { -1.0 } else { 1.0 }).collect();
+                    let ex = exact_int_dot(&a, &b) as f64;
+                    (Vector::create(a), Vector::create(b), ex)
+                }).collect();
+                for c in 0..calls {
+                    let (a, b, ex) = &sets[(c % 6) as usize];
+                    st.case = c;
+                    st.eval();
+                    match catch(|| a.dot_f64(b)) {
+                        Outcome::Ok(v) => if v.to_bits() != ex.to_bits() {
+                            st.violation("C16:dot_f64:concurrent-callers:wrong-value", format!("caller thread {} (CPUs {:?}), call {}, len {}: dot_f64 = {:e}, exact = {:e} while {} other threads call dot_f64 on their own data", t, pair, c, a.size(), v, ex, nthreads - 1));
+                            if st.nviol > 5 { break; }
+                        },
+                        o => { st.violation("C16:dot_f64:concurrent-callers:panic", o.describe()); break; }
+                    }
+                }
+                st.add("concurrent-callers:calls", st.evals);
+                st.nontrivial(hmix(hash_str("concurrent-callers"), t as u64));
+                total.lock().unwrap().merge(st);
+            });
+        }
+    });
+    let mut st = total.into_inner().unwrap();
+    st.add("concurrent-callers:threads", pairs.len() as u64);
+    st
+}
+
 pub fn run(ctx: &Ctx) -> Report {
     let cpus = allowed_cpus();
     let kmax = cpus.len().min(16);
@@ -179,8 +229,10 @@ pub fn run(ctx: &Ctx) -> Report {
     });
     stop.store(true, Ordering::Relaxed);
     for s in spinners { let _ = s.join(); }
+    let mut stats = stats;
+    if ctx.only_unit.is_none() || ctx.only_unit.map_or(false, |u| u >= 1_000_000) { stats.merge(concurrent_callers(ctx, &cpus)); }
     let mut rep = Report::new(stats,
-        "for every worker count k=1..K (K = CPUs in the initial affinity mask, 16 here; the monitor thread pins itself to k CPUs and confirms num_cpus::get()==k) and every length 0..200 (exhaustive) plus random longer lengths (multiples of k, multiples plus remainder, up to 4e4 quick / 2e5 thorough): three data sets (distinct integer products with exact partial sums, signed integers, general floats; quick tier: one data set per (k,len), rotating), each call made twice, half of the configurations with pseudo-random per-worker delays injected through hook H3, two duty-cycled background spinner threads throughout. Judged: bit-equality with dot() and the exact i128 dot product on exact data, |diff|<=2*len*u*sum|ab| on general data, bit-identical repeats; hook events: chunks tile [0,len) exactly once in order, chunk count == worker count (its relation to the CPU count is recorded, not judged), completion tickets form a permutation (distinct completion orders are reported per worker count). Non-trivial: every (k,len,data,delay) configuration; distinct = that tuple");
+        "for every worker count k=1..K (K = CPUs in the initial affinity mask, 16 here; the monitor thread pins itself to k CPUs and confirms num_cpus::get()==k) and every length 0..200 (exhaustive) plus random longer lengths (multiples of k, multiples plus remainder, up to 4e4 quick / 2e5 thorough): three data sets (distinct integer products with exact partial sums, signed integers, general floats; quick tier: one data set per (k,len), rotating), each call made twice, half of the configurations with pseudo-random per-worker delays injected through hook H3, two duty-cycled background spinner threads throughout. Judged: bit-equality with dot() and the exact i128 dot product on exact data, |diff|<=2*len*u*sum|ab| on general data, bit-identical repeats; hook events: chunks tile [0,len) exactly once in order, chunk count == worker count (its relation to the CPU count is recorded, not judged), completion tickets form a permutation (distinct completion orders are reported per worker count). Plus a concurrent-callers phase: 8 user threads pinned to disjoint CPU pairs call dot_f64 on their own exact data simultaneously (30k calls each quick, 400k thorough), every result bit-equal to the exact integer dot product. Non-trivial: every (k,len,data,delay) configuration; distinct = that tuple");
     rep.assumptions = vec!["worker count is set through sched_setaffinity on the calling thread (what num_cpus::get() reads)".into(), "Miri/TSan stages are run by the check wrapper (see sanitizer_stages in the evidence)".into()];
     rep.min_nontrivial = if ctx.quick() { 2000 } else { 15_000 };
     let mut ex = J::obj();
